@@ -17,7 +17,7 @@ CACHE = os.environ.get("VERIF_CACHE", "/var/tmp/libcsd-verif-cache")
 GUARD = "LIBCSD_VERIF"
 
 FLAGS = {
-    "asan": ["-O1", "-g", "-fsanitize=address", "-fno-omit-frame-pointer"],
+    "asan": ["-O1", "-g", "-fsanitize=address", "-fsanitize-recover=address", "-fno-omit-frame-pointer"],
     "tsan": ["-O1", "-g", "-fsanitize=thread"],
     "plain": ["-O1", "-g"],
 }
